@@ -85,6 +85,16 @@ def check(sp):
             texts[indent] = metapype_io.to_json(t, indent)
         except Exception as e:  # noqa
             raise Violation("to-json-raises:" + type(e).__name__, repr(e)[:200], case)
+    # the text is a function of the tree and the indent argument, not of what was serialised before
+    try:
+        again_compact = metapype_io.to_json(t, None)
+    except Exception as e:  # noqa
+        raise Violation("to-json-raises:" + type(e).__name__, repr(e)[:200], case)
+    if again_compact != texts[None]:
+        raise Violation("text-depends-on-earlier-calls", "to_json(t) before and after to_json(t, indent=2) differ", case)
+    if "\n" in texts[None] or "\n" not in texts[2]:
+        raise Violation("indent-argument-not-honoured", "indent=None output contains a line break or indent=2 output contains none "
+                        "(an earlier call's indent leaked?)", case)
     try:
         loaded = json.loads(texts[None])
     except Exception as e:  # noqa
